@@ -224,6 +224,48 @@ def impl_case(mods, case, stub=False):
     return ' | '.join(outs), None, raws
 
 
+def random_auth_check(mods, res):
+    """SOCKSRandomAuth (fresh 64-hex-digit user name and password on every access): judged by
+    the server-side parsers only - the values are random, so there is no model line."""
+    hexd = set(b'0123456789abcdef')
+    n = 0
+    for proto in ('4', '4a', '5'):
+        for host in (V4, NAME, V6):
+            if scope((proto, host, 80, None))[0] != 'express':
+                continue
+            for port in (1, 80, 65535):
+                try:
+                    addr = sc.make_address(mods, host, port)
+                    dialogs = DIALOGUES5 if proto == '5' else ([],)
+                    raws = [sc.drive_object(mods, mods.cls[proto](addr, mods.socks.SOCKSRandomAuth()), ch)[1]
+                            for ch in dialogs]
+                except Exception as e:      # observed
+                    res.violation('c16:expressible-rejected', {'random_auth': proto, 'host': sc.enc_host(host)},
+                                  f'SOCKSRandomAuth: {sc.exc_name(e)}')
+                    continue
+                n += 1
+                bad = None
+                if proto != '5':
+                    m = msgs_of(raws[0])
+                    p4 = parse_socks4_request(m[0], ext_4a=(proto == '4a')) if len(m) == 1 else None
+                    if not p4 or p4['rest'] or p4['port'] != port or len(p4['user']) != 64 \
+                            or not set(p4['user']) <= hexd:
+                        bad = f'SOCKS4 request with random auth parses to {p4}'
+                else:
+                    m = msgs_of(raws[2])
+                    u = parse_userpass(m[1]) if len(m) == 3 else None
+                    g = parse_greeting(m[0]) if m else None
+                    if not u or u['rest'] or u['ver'] != 1 or len(u['user']) != 64 or len(u['password']) != 64 \
+                            or not set(u['user'] + u['password']) <= hexd or not g or g['methods'] != [0, 2]:
+                        bad = f'random auth dialogue parses to {g} / {u}'
+                    elif len(msgs_of(raws[1])) != 2:
+                        bad = 'credentials sent although method 0 was selected'
+                if bad:
+                    res.violation('c16:random-auth', {'random_auth': proto, 'host': sc.enc_host(host), 'port': port}, bad)
+    res['scopes']['random_auth_objects'] = n
+    res['evaluations'] += n
+
+
 # ------------------------------------------------------------------ case generation
 V4 = ('4', bytes([1, 2, 3, 4]))
 V6 = ('6', bytes(range(16)))
@@ -486,6 +528,7 @@ def run(ctx):
         res.sample({'case': sc.enc_case(c), 'impl': o[0][:200]})
     # (d) malformed stream (stub address objects): model vs code only
     evaluate(ctx, malformed_cases(), res, 'malformed_stub', stub=True)
+    random_auth_check(_mods, res)
     return res.finish(RULE, exhaustive=all_ports and not res.failed)
 
 
